@@ -457,6 +457,11 @@ var zxGroupCases = []zxGroupCase{
 	{"SELECT a, b FROM t GROUP BY _", false, false, 1, 2},
 	{"SELECT * FROM t GROUP BY *, period(3s)", true, true, 3, 3},
 	{"SELECT a FROM t GROUP BY x, period(1s)", true, false, 1, 1},
+	// over a FROM-sub-query: the wildcard stands for the sub-query's fields, and an outer
+	// expression over a sub-query field is applied once
+	{"SELECT * FROM (SELECT a, b FROM t GROUP BY x, y) GROUP BY x, period(2s)", true, false, 2, 2},
+	{"SELECT a * 2 AS a FROM (SELECT a FROM t GROUP BY x, y) GROUP BY x", true, false, 1, 4},
+	{"SELECT a * 2 AS z FROM (SELECT a FROM t GROUP BY x, y) GROUP BY x", true, false, 1, 4},
 }
 
 // C06.Q — coarser grouping through the real planner: grouping by a subset of the dims and/or by a
@@ -465,7 +470,7 @@ var zxGroupCases = []zxGroupCase{
 // (T-P, T]; periods are disjoint and every stored value inside the window lands in exactly one
 // output row (reference computed in the harness from the raw rows).
 //
-//zx:harness prop=C06 id=C06.Q tier=quick mode=real shard=case:10,x0:2 R=2 quick.ny=2 thorough.R=3 thorough.ny=3 thorough.shard=case:10,x0:2,y0:3
+//zx:harness prop=C06+C08 id=C06.Q tier=quick mode=real shard=case:13,x0:2 R=2 quick.ny=2 thorough.R=3 thorough.ny=3 thorough.shard=case:13,x0:2,y0:3
 func zxC06Query() {
 	c := zxGroupCases[vrtShape("case", len(zxGroupCases))]
 	periods := 3
@@ -504,6 +509,8 @@ func zxC06Query() {
 				vals = []float64{r.a[p], r.b[p]}
 			case 3:
 				vals = []float64{1, r.a[p], r.b[p]}
+			case 4:
+				vals = []float64{2 * r.a[p]}
 			}
 			found := false
 			for i := range want {
